@@ -92,6 +92,8 @@ def command_of(s, by_out):
         parts.append("gen=1")
     if s.copy:
         parts.append("copy=1")
+    if getattr(s, "detach", False):
+        parts.append("dt=1")
     if s.depall:
         parts.append("depall=1")
     if getattr(s, "per_out_reads", None):
